@@ -659,8 +659,11 @@ def _eval_gauss(cell, res):
                         for passing in passings:
                             for srep in (sreps if passing != "list" else sreps[:1]):
                                 for mkind, mrep, marg, mref in mean_forms:
-                                    if srep not in (None, "scalar") and ":" in mkind and cell.get("sreps") != "cross" and mkind.split(":")[1] != srep:
-                                        continue      # quick: at most one of datum / mean in a non-basic scalar-like form, or both in the same
+                                    if ":" in mkind and cell.get("sreps") != "cross" and (
+                                            passing != "array" or (srep not in (None, "scalar") and mkind.split(":")[1] != srep)):
+                                        continue      # quick: the scalar-like forms of the mean with directly passed data only; at most one of datum / mean in a non-basic scalar-like form, or both in the same
+                                    if srep not in (None, "scalar") and cell.get("sreps") != "cross" and mkind not in ("scalar", "vector") and ":" not in mkind:
+                                        continue      # quick: the scalar-like forms of the datum with the mean forms {scalar, vector} only
                                     fac = {"obtained": "direct", "origin": "direct", "data": label, "path": path, "pass": passing, "mean": mkind, "factor": factor}
                                     if isint:
                                         fac["rep"], fac["meanrep"] = rep, mrep
@@ -1264,7 +1267,7 @@ def _family_scalar_likes(cuqi, cls, res, cell, fam):
         for p in names + (["all"] if len(names) > 1 else []):
             targets = names if p == "all" else [p]
             others = [q for q in vecs if q not in targets]
-            for dimsrc in ["geometry"] + (["other-parameter"] if others else []):
+            for dimsrc in ["geometry"] + (["other-parameter"] if (others and dim > 1) else []):
                 for via in (("direct", "callable", "none") if p != "all" else ("direct",)):
                     for ri in range(nreps):
                         kwargs, cond, eff = {"name": "x"}, {}, {}
@@ -1464,7 +1467,7 @@ def _family_observe(res, tally, cell, fam, fac, d0, d, cond, R, offset):
     direct = origin == "direct"
     full = direct and not R.get("light")      # complete point alphabet / input representations / quadrature
     passing = fac.get("pass")
-    inside = R["inside"] if full else R["inside"][:(3 if direct else 2)]
+    inside = R["inside"] if full else R["inside"][:2]
     outside = R["outside"] if full else R["outside"][:2]
 
     def ref(x):
@@ -1782,8 +1785,12 @@ def _eval_mrf(cell, res):
                 rfs = {}
                 for hform, harg, hcond, hyper, hbase in hyp_forms:
                     # quick: at most one of the two parameters in a non-base scalar-like form, or both in the same one
-                    if not (lbase or hbase or allforms or lkind.split(":")[-1] == hform.split(":")[-1]):
-                        continue
+                    if not allforms and not (lbase and hbase):
+                        if not (lbase or hbase):
+                            if lkind.split(":")[-1] != hform.split(":")[-1]:
+                                continue
+                        elif (lbase and lkind not in ("vector", "callable")) or (hbase and hform not in ("float", "callable")):
+                            continue      # quick: a non-basic scalar-like form of one parameter with the other as {vector, callable} resp. {float, callable}
                     if hyper not in rfs:
                         rfs[hyper] = _mrf_ref_values(fam, S, hyper, lref, pts)
                     rf = rfs[hyper]
